@@ -56,6 +56,14 @@ def cases(tier, seed):
                 for side in ("below", "above"):
                     out.append({"kind": "cell", "ff": "PARSE", "group": g, "pos": pos, "side": side, "neutral": flag,
                                 "seed": seed * 1019 + rep * 100000 + len(out)})
+    # API-level route for the terminal groups: their entries are injected into the dictionary apply_pka_values gets
+    for rep in range(1 if tier == "quick" else 40):
+        for ff in common.FFS:
+            for g in GROUPS + ["ALA"]:
+                for pos in "NC":
+                    for side in ("below", "above"):
+                        out.append({"kind": "cell", "ff": ff, "group": g, "pos": pos, "side": side,
+                                    "inject_terminal": True, "seed": seed * 1021 + rep * 100000 + len(out)})
     # residues that share name, number and chain and differ only by insertion code (52, 52A, 52B), pKa sides mixed
     for rep in range(1 if tier == "quick" else 60):
         for ff in common.FFS:
@@ -221,6 +229,9 @@ def run_cell(spec, res):
         res.cell(g["group"], "N" if truth[g["k"]]["pos"] == "NC" else truth[g["k"]]["pos"], spec["ff"], g["side"])
     STUB["table"] = rows
     STUB["titration_log"] = []
+    STUB["inject_terminal"] = bool(spec.get("inject_terminal"))
+    if spec.get("inject_terminal"):
+        res.count("api_terminal_cells")
     opts = [f"--ff={spec['ff']}", "--titration-state-method=propka", f"--with-ph={ph}"] + \
         ([spec["neutral"]] if spec.get("neutral") else [])
     if spec["seed"] % 4 == 2:
@@ -233,10 +244,11 @@ def run_cell(spec, res):
         r = pipeline.run(text, opts, workname="c06")
     finally:
         STUB["table"] = None
+        STUB["inject_terminal"] = False
     res.count("stub_runs")
     if not r.ok:
         msg = " | ".join(m for lv, _n, m in r.log if lv >= 40)[:200]
-        want = spec["side"] == TITR[x][1]
+        want = x in TITR and spec["side"] == TITR[x][1]
         res.violate(f"titration/run-aborts/{x}@{spec['pos']}/{spec['ff']}/{'titrated' if want else 'default'}-side",
                     f"run with pH {ph} and pKa table {[(g['group'], round(g['pka'], 3)) for g in groups]} fails: "
                     f"{type(r.exc).__name__} {msg}", ff=spec["ff"], group=x, position=spec["pos"], pH=ph, seed=spec["seed"])
